@@ -109,6 +109,36 @@ func c08ShortReads(ss []seed) mc.Harness {
 	}
 }
 
+// every length of the first read: wherever the first buffer-full ends, the result is the same
+func c08FirstRead(ss []seed) mc.Harness {
+	pairs := seedEntryPairs(ss)
+	const chunk = 256
+	return func(x *mc.Exec) {
+		p := pairs[x.All("seed-entry", len(pairs))]
+		s, e := ss[p.s], &entryPoints[p.e]
+		max := len(s.doc.B)
+		if max > 4200 {
+			max = 4200
+		}
+		ch := x.All("length-chunk", (max+chunk-1)/chunk)
+		second := []int{0, 1, 31}[x.All("second-read", 3)]
+		ref := c08Ref(e, s.doc.B)
+		n := 0
+		for k := 1 + ch*chunk; k <= (ch+1)*chunk && k <= max; k++ {
+			pristine()
+			rd := envio.New(s.doc.B)
+			rd.FirstChunks = []int{k, second}
+			rd.Budget = 1 << 40
+			got := runEntry(e, rd, false)
+			n++
+			c08Compare(x, e, s.name, s.doc.B, ref, got, fmt.Sprintf("a reader whose first Read delivers %d bytes and whose second delivers at most %d (0 = all)", k, second))
+		}
+		x.Bulk = int64(n) - 1
+		x.InputID = hashBytes([]byte(fmt.Sprint(s.name, e.name, ch, second, "fr")))
+		x.Outcome = e.name
+	}
+}
+
 // malformed inputs under uniform chunking: error paths must agree too
 func c08Malformed(ss []seed) mc.Harness {
 	var withFields []seed
@@ -159,6 +189,8 @@ func init() {
 			}
 			sp = append(sp, mc.Space{Name: "uniform-chunking-large-payloads", H: c08Uniform(bigSeeds()), NoLevels: true, Isolate: true,
 				Rule: "the large-payload seeds (previews of 10-70 KB, also as the last box of the file; 9 KB XMP; 5 KB strings; 60 KB JPEG segments) x the same chunk sizes x data-with-EOF"})
+			sp = append(sp, mc.Space{Name: "first-read-lengths", H: c08FirstRead(seeds()), NoLevels: true, Isolate: true,
+				Rule: "every (seed, accepting entry) x every length 1..min(len,4200) of the first Read x second Read {unlimited, 1 byte, 31 bytes}: wherever the first buffer-full of the source ends (one byte into a header, in the middle of a marker), the result is the in-memory result"})
 			if tier == "thorough" {
 				sp = append(sp, mc.Space{Name: "malformed-inputs-chunked", H: c08Malformed(genSeeds()), Bound: 1, Isolate: true,
 					Rule: "every single-field malformation of every generated seed under three chunking policies; error paths must agree"})
